@@ -27,8 +27,8 @@ def mutated_through_self(repo, cls):
 
 
 def bound_in_init(repo, cls):
-    """attributes some __init__ along the MRO stores on self (mangled)"""
-    out = set()
+    """attributes some __init__ along the MRO stores on self (mangled) -> the value expression (last binding wins)"""
+    out = {}
     for k in repo.mro(cls):
         init = k.methods.get("__init__")
         if init is None:
@@ -38,8 +38,26 @@ def bound_in_init(repo, cls):
             for t in tg:
                 for x in ast.walk(t):
                     if isinstance(x, ast.Attribute) and isinstance(x.value, ast.Name) and x.value.id == "self" and isinstance(x.ctx, ast.Store):
-                        out.add(repo.mangle(k.name, x.attr))
+                        out.setdefault(repo.mangle(k.name, x.attr), (k, getattr(n, "value", None)))
     return out
+
+
+def reads_class_level_mutable(repo, cls, k, e):
+    """name of a class-level mutable (of cls's hierarchy) that expression e reads (Cls.X, self.__class__.X, type(self).X,
+    self.X where X is never bound on the instance) - a value obtained from it is shared between instances"""
+    if e is None:
+        return None
+    shared = class_level_mutables(repo, cls)
+    for x in ast.walk(e):
+        if isinstance(x, ast.Attribute):
+            nm = repo.mangle(k.name, x.attr)
+            if nm in shared:
+                root = x.value
+                via_class = (isinstance(root, ast.Name) and root.id != "self") or (isinstance(root, ast.Attribute) and root.attr == "__class__") or \
+                    (isinstance(root, ast.Call) and isinstance(root.func, ast.Name) and root.func.id == "type")
+                if via_class or (isinstance(root, ast.Name) and root.id == "self"):
+                    return nm
+    return None
 
 
 def class_level_mutables(repo, cls):
@@ -64,7 +82,13 @@ def per_instance_state(ctx, rule, cls, reviewed_shared=()):
         w = where(cls.relpath, cls.name, None)
         label = "self.%s mutated in place by %s" % (attr, ", ".join(sorted({s[0] for s in sites}))[:80])
         if attr in inits:
-            ctx.hold(rule, w, label, "bound per instance by a constructor")
+            k, val = inits[attr]
+            src = reads_class_level_mutable(repo, cls, k, val)
+            if src is not None and src != attr:
+                ctx.violate(rule, where(k.relpath, k.name + ".__init__", getattr(val, "lineno", None)), label,
+                            "the constructor binds `%s` to a value taken from the class-level mutable `%s` (%s): instances of one class share it - what one instance registers or stores is seen, and used, by the others" % (attr, src, ast.unparse(val)[:70]))
+            else:
+                ctx.hold(rule, w, label, "bound per instance by a constructor")
             n += 1
         elif attr in shared:
             k = shared[attr]
